@@ -3,7 +3,7 @@
 From MD Require Import Lib.Base Lib.Latin1 Model.Node Model.Keyword Model.Engine Model.Reference.
 From MD Require Import Model.Flatten Model.Json Model.Query Model.Dec.Carets.
 From MD Require Import Regex.Syntax Regex.Backtrack Generated.Regexes.
-From MD Require Import Model.Registry Generated.RegistryTable.
+From MD Require Import Model.Registry Generated.RegistryTable Generated.Keywords Model.EngineR Model.Default.
 
 Definition bad_args : pval := VErr (L"bad-args").
 
@@ -82,6 +82,23 @@ Fixpoint dtree_of_val (v : pval) : dtree :=
 
 Definition val_of_searchers (l : list (label * list bytes)) : pval :=
   VList (map (fun kw => VList [VStr (fst kw); VList (map VBytes (snd kw))]) l).
+
+Fixpoint tbl_z (tbl : list pval) (k : bytes) : Z :=
+  match tbl with
+  | VList [VBytes k'; VInt z] :: rest => if beqb k k' then z else tbl_z rest k
+  | _ :: rest => tbl_z rest k
+  | [] => 0
+  end.
+Fixpoint tbl_l (tbl : list pval) (k : bytes) : list bytes :=
+  match tbl with
+  | VList [VBytes k'; VList l] :: rest => if beqb k k' then bytes_list l else tbl_l rest k
+  | _ :: rest => tbl_l rest k
+  | [] => []
+  end.
+Definition plist (v : pval) : list pval := match v with VList l => l | _ => [] end.
+
+(* decoders modelled in files that are added to the dispatcher here rather than in Model/Default.v *)
+Definition extra_decoders (pe xor : pval) (name : label) : option (bytes -> res (list node)) := None.
 
 Definition probe (name : list N) (arg : pval) : pval :=
   if beqb name (L"find_keywords") then
@@ -175,4 +192,14 @@ Definition probe (name : list N) (arg : pval) : pval :=
   else if beqb name (L"get_keywords") then val_of_searchers (get_keywords (dtree_of_val arg))
   else if beqb name (L"splitlines") then
     match arg with VBytes b => VList (map VBytes (splitlines b)) | _ => bad_args end
+  else if beqb name (L"decoder") then
+    match arg with
+    | VList [VStr dn; VBytes data; pe; xor] =>
+        val_of_res vnodes (decoder_by_name (tbl_z (plist pe)) (tbl_l (plist xor)) (extra_decoders pe xor) dn data)
+    | _ => bad_args end
+  else if beqb name (L"scan_default") then
+    match arg with
+    | VList [VInt depth; VBytes data; pe; xor] =>
+        val_of_res val_of_node (scan_default (tbl_z (plist pe)) (tbl_l (plist xor)) (extra_decoders pe xor) decoder_modules shipped_keywords depth data)
+    | _ => bad_args end
   else VErr (L"unknown-probe").
